@@ -82,6 +82,7 @@ def apiStep (s : ApiState) (line : String) : ApiState × String :=
   | ["reopen"] => ({ s with writer := none, readers := [], cursors := [] }, "ok")
   | ["close"] => ({ s with writer := none, readers := [], cursors := [] }, "ok")
   | ["put", tx, p, k, v] => mutate s tx (fun r => apiPut r (parsePath p) (unhex k) (unhex v))
+  | ["putnil", tx, p, k] => mutate s tx (fun r => apiPut r (parsePath p) (unhex k) [])   -- Put(k, nil): an empty value
   | ["del", tx, p, k] => mutate s tx (fun r => apiDelete r (parsePath p) (unhex k))
   | ["mkb", tx, p, k] => mutate s tx (fun r => apiCreateBucket r (parsePath p) (unhex k) false)
   | ["mkbi", tx, p, k] =>
